@@ -14,17 +14,73 @@ func c15Obs(t *Ty) string {
 	})
 }
 
+// c15Accept: a random value of the type is encoded; the encoding must lie within the reported
+// bounds (inb) and must be accepted by the decoder however it arrives (acc): from a plain
+// reader, from a stuttering stream, and as the remainder of a reader the caller already took a
+// header from.
+func c15Accept(g *gen, ty *Ty) string {
+	return guard(func() string {
+		saved := g.maxElem
+		g.maxElem = 3
+		v := g.val(ty)
+		g.maxElem = saved
+		vw, err := buildViewSafe(ty, v)
+		if err != nil {
+			return ""
+		}
+		data, err := serializeView(vw)
+		if err != nil || len(data) > 600 {
+			return ""
+		}
+		d := ty.Def()
+		inb := uint64(len(data)) >= d.MinByteLength() && uint64(len(data)) <= d.MaxByteLength()
+		acc := true
+		for route := 0; route < 4; route++ {
+			if _, err := deserializeVia(ty, data, route); err != nil {
+				acc = false
+			}
+		}
+		return " inb=" + b01(inb) + " acc=" + b01(acc)
+	})
+}
+
+// smallFixedParts: no vector or bitvector of more than 600 elements anywhere in the type (a value
+// of it has to be built)
+func smallFixedParts(t *Ty) bool {
+	if (t.Kind == "vec" || t.Kind == "bitvec") && t.N > 600 {
+		return false
+	}
+	if t.Elem != nil && !smallFixedParts(t.Elem) {
+		return false
+	}
+	for _, f := range t.Fields {
+		if !smallFixedParts(f) {
+			return false
+		}
+	}
+	return true
+}
+
 func TestC15(t *testing.T) {
 	out := openOut(t, "C15")
 	defer out.close()
 	seen := map[string]bool{}
+	ga := &gen{r: newRng(1515), maxElem: 3}
 	do := func(tag string, ty *Ty) {
 		s := ty.Sexp()
 		if seen[s] {
 			return
 		}
 		seen[s] = true
-		out.emit(tag, "c15", []string{s}, c15Obs(ty))
+		obs := c15Obs(ty)
+		if obs != "PANIC" && len(seen)%4 == 0 && ty.Kind != "bool" && smallFixedParts(ty) {
+			if a := c15Accept(ga, ty); a != "PANIC" {
+				obs += a
+			} else {
+				obs += " acc=PANIC"
+			}
+		}
+		out.emit(tag, "c15", []string{s}, obs)
 	}
 	// all leaf types, all one-level series over the size sets
 	leaves := []*Ty{{Kind: "u", N: 1}, {Kind: "u", N: 2}, {Kind: "u", N: 4}, {Kind: "u", N: 8}, {Kind: "u", N: 32}, {Kind: "bool"}, {Kind: "root"}}
